@@ -34,7 +34,7 @@ CHECKS = {
          "DESIGN.md §4 C05"),
  "C06": ("exploration",
          "remote-truth monitor: the harness connector is the reference state; every update's Waiter result recorded; fresh views, LIST and a selected observer's NOOP compared before/after valid updates of every kind, invalid ones, restatements/duplicates and delivered echoes of client commands; concurrent bursts of mixed updates",
-         "Histories mix valid updates of every kind (MessagesCreated with new / known / known-only messages and ignored unknown mailboxes, MessageFlagsUpdated, MessageMailboxesUpdated, MessageDeleted, MessageUpdated with same bytes / new bytes / AllowCreate, MessageIDChanged, MailboxCreated/Deleted/Updated, Noop), 16 kinds of invalid ones (unknown IDs, protected recovery mailbox, taken names), restatements of the current state, duplicate deliveries and the remote echoes of client commands (APPEND, STORE, COPY, MOVE, EXPUNGE, CREATE). Every update must be acknowledged (a second acknowledgement panics and is recorded), valid ones with success; after each step every mailbox seen by a fresh session equals the remote (membership, flags, bytes), untouched messages keep their UIDs and LIST equals the remote names; invalid updates, restatements and echoes leave UIDs/UIDNEXT/flags/bytes unchanged and a selected observer's NOOP silent. Bursts from 2-6 goroutines check one acknowledgement each and convergence.",
+         "Histories mix valid updates of every kind (MessagesCreated with new / known / known-only messages and ignored unknown mailboxes, MessageFlagsUpdated, MessageMailboxesUpdated, MessageDeleted, MessageUpdated with same bytes / new bytes / AllowCreate, MessageIDChanged, MailboxCreated/Deleted/Updated, Noop), 16 kinds of invalid ones (unknown IDs, protected recovery mailbox, taken names), restatements of the current state, duplicate deliveries and the remote echoes of client commands (APPEND, STORE, COPY, MOVE, EXPUNGE, CREATE). Every update must be acknowledged (a second acknowledgement panics and is recorded), valid ones with success; after each step every mailbox seen by a fresh session equals the remote (membership, flags, bytes), untouched messages keep their UIDs and LIST equals the remote names; invalid updates, restatements and echoes leave UIDs/UIDNEXT/flags/bytes unchanged and a selected observer's NOOP silent. Bursts from 2-6 goroutines check one acknowledgement each and convergence; updates submitted while the server is closed or the user removed must all be acknowledged once Close has returned.",
          "MailboxIDChanged is only exercised with unknown IDs (a connector cannot learn internal mailbox IDs). Echoes of intermediate states of multi-call commands are not restatements and are not delivered. Watchdog expiry on an acknowledgement is inconclusive, not a violation, for valid updates.",
          "DESIGN.md §4 C06"),
  "C07": ("exploration",
